@@ -177,6 +177,18 @@ impl ExecSubject {
             if result_str(&r1) != result_str(&r2) {
                 return Err(viol("producer-dry-run-not-repeatable", format!("Producer::dry_run({rq:?}) at height {latest}: first {} second {}", result_str(&r1), result_str(&r2))));
             }
+            // same request while a block production holds the production mutex (the chain is
+            // still unchanged): the answer must be the same as before and after
+            let r3 = {
+                let _production_in_progress = producer.lock.try_lock().expect("the production lock is free between requests");
+                rt.block_on(producer.dry_run(txs.clone(), height, None, rq.utxo, rq.gas_price, rq.record))
+            };
+            if result_str(&r1) != result_str(&r3) {
+                return Err(viol(
+                    "producer-dry-run-differs-while-production-in-progress",
+                    format!("Producer::dry_run({rq:?}) at height {latest}: alone {} but {} while the production lock is held", result_str(&r1), result_str(&r3)),
+                ));
+            }
             if pool_calls.0.load(Ordering::SeqCst) != 0 || rel_calls.0.load(Ordering::SeqCst) != 0 {
                 return Err(viol("dry-run-touched-pool-or-relayer", format!("Producer::dry_run({rq:?}) called the txpool or the relayer port")));
             }
